@@ -219,11 +219,11 @@ def make_scenario(desc):
         x, y = gen_mass(rng, n, mk), gen_mass(rng, n, "real" if rng.random() < 0.5 else mk)
         ck = COST_KINDS[int(rng.integers(len(COST_KINDS)))]
         C = gen_cost(rng, n, ck)
-        c = [2.0, 0.5, 1024.0, 3.0, 1000.0, 0.001][int(rng.integers(6))]
+        c = [2.0, 0.5, 1024.0, 3.0, 1000.0, 0.001, 2.0 ** -20, 2.0 ** -30, 2.0 ** -40][int(rng.integers(9))]   # histograms are scale free: tiny total mass too
         d = [1.0, 4.0, 7.0, 0.125][int(rng.integers(4))]
         runs += [dense_run(x, y, C, mass=mk, cost=ck),
                  dense_run((x * np.float32(c)).astype(np.float32), (y * np.float32(d)).astype(np.float32), C, mass=mk, cost=ck)]
-        exact = (c in (2.0, 0.5, 1024.0)) and (d in (1.0, 4.0, 0.125))   # power-of-two factors: float32 products are exact
+        exact = (c in (2.0, 0.5, 1024.0, 2.0 ** -20, 2.0 ** -30, 2.0 ** -40)) and (d in (1.0, 4.0, 0.125))   # power-of-two factors: float32 products are exact
         rels.append({"rel": "rescale", "runs": [0, 1], "exact": exact, "c": c, "d": d})
     elif kind == "oned":
         n = dim()
